@@ -320,8 +320,15 @@ func (t *SpecTracer) afterOp(n *Node, op string, msg *pb.Message) {
 			if !ok {
 				g = nil
 			}
-			t.emit("handleSnap %d %d %s", id, msg.GetTerm(), tokLog(g))
 			installed := base == s.GetIndex() && len(ents) == 0 && post.commit == s.GetIndex() && (pre.last != post.last || pre.commit != post.commit)
+			if s.GetIndex() > pre.commit && post.commit == pre.commit && !installed {
+				// refused: the receiver is not part of the snapshot's configuration (`restore` returns false); it only
+				// answers with its commit index
+				t.emit("ackCommit %d %d", id, msg.GetTerm())
+				handled = true
+				break
+			}
+			t.emit("handleSnap %d %d %s", id, msg.GetTerm(), tokLog(g))
 			if installed && (uint64(len(oldGhost)) < s.GetIndex() || !sameLog(oldGhost[:s.GetIndex()], g)) {
 				oldGhost = g
 				if t.R { // the snapshot replaces the log: the configuration switches at once (SpecR: applied := index)
